@@ -8,6 +8,7 @@ import itertools
 import json
 
 from vlib import core, l1
+from vlib.diffcheck import DiffCheck, node_types
 
 PROP = "C01"
 RULE = (
@@ -41,82 +42,6 @@ def features():
         "star_target_nonname": "C01-star-target-nonname" not in open_ids,
         "matmul": "C01-matmul" not in open_ids,
     }
-
-
-# --------------------------------------------------------------------------------------
-# running one program in both worlds
-# --------------------------------------------------------------------------------------
-
-
-def observe(g, exc, tr, inj):
-    vis = l1.visible_globals(g, inj) if g is not None else []
-    return {
-        "globals": {k: l1.canon(v) for k, v in vis},
-        "alias": l1.alias_partition(vis),
-        "log": list(tr.log),
-        "exc": l1.exc_class(exc),
-    }
-
-
-def diff_kinds(o1, o2):
-    kinds = []
-    if o1["exc"] != o2["exc"]:
-        kinds.append(f"exc:{o1['exc']}->{o2['exc']}")
-    if o1["log"] != o2["log"]:
-        if sorted(o1["log"]) == sorted(o2["log"]):
-            kinds.append("trace-order")
-        elif len(o1["log"]) != len(o2["log"]):
-            kinds.append("trace-count")
-        else:
-            kinds.append("trace-value")
-    if o1["globals"] != o2["globals"]:
-        if list(o1["globals"]) != list(o2["globals"]) and dict(o1["globals"]) == dict(o2["globals"]):
-            kinds.append("globals-order")
-        else:
-            kinds.append("value")
-    if o1["alias"] != o2["alias"]:
-        kinds.append("alias")
-    return kinds
-
-
-async def both(src):
-    """Returns (cpython_obs, pyscript_obs, compiled_ok)."""
-    t1 = l1.Tracer()
-    inj1 = t1.injected()
-    g1, e1, ok = l1.run_cpython(src, inj1)
-    if not ok:
-        return None, None, False
-    t2 = l1.Tracer()
-    inj2 = t2.injected()
-    g2, e2, _ = await l1.run_pyscript(src, inj2)
-    return observe(g1, e1, t1, inj1), observe(g2, e2, t2, inj2), True
-
-
-BORING = {"Module", "Load", "Store", "Del", "Name", "Constant", "Expr", "Assign"}
-
-
-def node_types(src):
-    try:
-        tree = ast.parse(src)
-    except SyntaxError:
-        return []
-    return sorted({type(n).__name__ for n in ast.walk(tree)} - BORING)
-
-
-def is_nontrivial(src, o1):
-    nts = [n for n in node_types(src)]
-    return len(nts) >= 2 and (len(o1["log"]) > 0 or len(o1["globals"]) > 0)
-
-
-async def minimise(src, kinds):
-    """AST-level reduction keeping the same set of differing observables."""
-    from vlib.reduce import reduce_source
-
-    async def still(s):
-        o1, o2, ok = await both(s)
-        return bool(ok and diff_kinds(o1, o2) == kinds)
-
-    return await reduce_source(src, still)
 
 
 # --------------------------------------------------------------------------------------
@@ -242,18 +167,6 @@ PREDICATES = {
     "C01-matmul": pred_matmul,
     "C01-module-level-global": pred_module_global,
 }
-
-
-def match_known(src, kinds):
-    try:
-        tree = ast.parse(src)
-    except SyntaxError:
-        return None
-    for f in core.open_findings(PROP):
-        p = PREDICATES.get(f["id"])
-        if p and p(tree, kinds):
-            return f["id"]
-    return None
 
 
 # --------------------------------------------------------------------------------------
@@ -1063,154 +976,41 @@ REGRESS = [
 ]
 
 
-async def check_one(res, klass, src, feat, record_case=True):
-    try:
-        o1, o2, ok = await both(src)
-    except asyncio.TimeoutError:
-        res.count("timeout")
-        return
-    if not ok:
-        res.count("compile_rejected")
-        return
-    nt = is_nontrivial(src, o1)
-    if record_case:
-        res.case(src, nt)
-        res.klass(klass.split(":")[0])
-        if o1["exc"]:
-            res.klass("raises:" + str(o1["exc"]))
-    kinds = diff_kinds(o1, o2)
-    if not kinds:
-        return
-    small = await minimise(src, kinds)
-    o1m, o2m, _ = await both(small)
-    kinds_m = diff_kinds(o1m, o2m)
-    fid = match_known(small, kinds_m)
-    if fid:
-        res.known(fid)
-        return
-    bucket = "|".join(kinds_m) + "|" + ",".join(node_types(small))
-    res.mismatch(bucket, small, expected=o1m, observed=o2m, detail={"original": src, "class": klass})
+def is_nontrivial(src, o1):
+    return len(node_types(src)) >= 2 and (len(o1["log"]) > 0 or len(o1["globals"]) > 0)
+
+
+CHECK = DiffCheck(
+    PROP, RULE, PREDICATES, nontrivial=is_nontrivial,
+    assumptions=[
+        "CPython 3.12 in the same process is the reference semantics",
+        "generated programs avoid constructs listed as open findings in known_findings.json (counted under known_finding_hits when they still occur)",
+        "sets are only observed through order-insensitive operations; identity of equal immutable literals and the instant at which an unhashable dict-display key raises are CPython code-generation details and not compared",
+    ],
+)
 
 
 async def shard_main(tier, shard_i, shard_n):
     res = core.ShardResult()
     feat = features()
     async with l1.bare_hass():
-        # regress tier (every shard 0)
         if shard_i == 0:
-            for rid, src in REGRESS + regress_from_findings():
-                await check_one(res, "regress:" + rid, src, feat)
-        # tables
-        progs = table_programs(feat)
-        res.count("table_total", 0)
-        for idx in range(shard_i, len(progs), shard_n):
-            klass, src = progs[idx]
-            await check_one(res, klass, src, feat)
-            res.count("table_programs")
-        # random
-        n_random = {"quick": 8000, "thorough": 320000}[tier] // shard_n
+            for rid, src in REGRESS + CHECK.regress_from_findings():
+                await CHECK.check_one(res, "regress:" + rid, src)
+        await CHECK.run_programs(res, table_programs(feat), shard_i, shard_n)
+        n_random = {"quick": 8000, "thorough": 320000}[tier]
         depth = {"quick": 4, "thorough": 6}[tier]
-        loop = asyncio.get_running_loop()
-
-        pending = []
-
-        def case(R):
-            g = Gen(R, feat, depth)
-            pending.append(g.program())
-
-        # Hypothesis is synchronous; generate in batches, evaluate in the running loop
-        batch = 500
-        done = 0
-        b = 0
-        while done < n_random:
-            n = min(batch, n_random - done)
-            pending.clear()
-            core.run_hypothesis(case, n, core.seed() * 100003 + shard_i * 1009 + b)
-            for src in list(pending):
-                await check_one(res, "random", src, feat)
-            done += n
-            b += 1
-        res.count("random_programs", done)
+        await CHECK.run_random(res, lambda R: Gen(R, feat, depth).program(), n_random, shard_i, shard_n)
     return res
-
-
-def regress_from_findings():
-    out = []
-    for f in core.load_findings(PROP):
-        if str(f.get("status", "")).startswith("fixed") and f.get("reproducer"):
-            out.append((f["id"], f["reproducer"]))
-    return out
 
 
 def run_shard(tier, shard_i, shard_n):
     return asyncio.run(shard_main(tier, shard_i, shard_n))
 
 
-async def known_finding_lines():
-    """For each open finding whose reproducer still disagrees: a KNOWN-FINDING line."""
-    lines = []
-    stale = []
-    async with l1.bare_hass():
-        for f in core.open_findings(PROP):
-            o1, o2, ok = await both(f["reproducer"])
-            kinds = diff_kinds(o1, o2) if ok else []
-            if kinds:
-                lines.append(f"KNOWN-FINDING: property={PROP} {f['id']}: {f['description']}")
-            else:
-                stale.append(f["id"])
-    return lines, stale
-
-
-async def replay_async(path):
-    with open(path) as fh:
-        payload = json.load(fh)
-    src = payload["case"]
-    async with l1.bare_hass():
-        o1, o2, ok = await both(src)
-    kinds = diff_kinds(o1, o2) if ok else []
-    print(src)
-    print("cpython :", json.dumps(o1, default=repr)[:1500])
-    print("pyscript:", json.dumps(o2, default=repr)[:1500])
-    if kinds:
-        print(f"VIOLATION property={PROP} replay={path}")
-        return 1
-    print("no disagreement")
-    return 0
-
-
 def replay(path):
-    return asyncio.run(replay_async(path))
+    return CHECK.replay(path)
 
 
 def main(tier):
-    import time
-
-    t0 = time.time()
-    parts, errors = core.run_shards(PROP, tier, core.NCPU, timeout_s=3000)
-    merged = core.merge_results(parts)
-    merged["errors"].extend(errors)
-    known_lines, stale = asyncio.run(known_finding_lines())
-    violations = []
-    seen = set()
-    for m in merged["mismatches"]:
-        if m["bucket"] in seen:
-            continue
-        seen.add(m["bucket"])
-        path = core.write_replay(PROP, m["bucket"], m)
-        violations.append({"bucket": m["bucket"], "replay": path})
-    extra = {
-        "exhaustive_tables": True,
-        "table_programs": merged["counters"].get("table_programs", 0),
-        "random_programs": merged["counters"].get("random_programs", 0),
-        "compile_rejected": merged["counters"].get("compile_rejected", 0),
-        "features_enabled": features(),
-        "stale_open_findings": stale,
-    }
-    return core.finish(
-        PROP, tier, merged, RULE, t0, extra=extra, known_lines=known_lines, violations=violations,
-        assumptions=[
-            "CPython 3.12 in the same process is the reference semantics",
-            "generated programs avoid constructs listed as open findings in known_findings.json (counted under known_finding_hits when they still occur)",
-            "sets are only observed through order-insensitive operations",
-        ],
-    )
+    return CHECK.main(tier, extra={"exhaustive_tables": True, "features_enabled": features()})
